@@ -541,7 +541,9 @@ def goJsonD (j : Json) : Except String Json := do
   let out := match dec with
     | none => Json.null
     | some gv => match encode t gv with | some r => ofJVal r | none => Json.str "$encode-failed"
-  pure (Json.mkObj [("decoded", Json.bool dec.isSome), ("out", out), ("valid", Json.bool (wf t && valid t v)), ("infragment", Json.bool (wf t))])
+  pure (Json.mkObj [("decoded", Json.bool dec.isSome), ("out", out), ("valid", Json.bool (wf t && valid t v)), ("infragment", Json.bool (wf t)),
+    ("stable", Json.bool (match dec with | some gv => hasTy t gv && stable t gv | none => false)),
+    ("typed", Json.bool (match dec with | some gv => hasTy t gv | none => false))])
 
 def dispatch (fn : String) (j : Json) : Except String Json :=
   match fn with
